@@ -1,2 +1,853 @@
-From Coq Require Import QArith ZArith List Bool.
-From FL Require Import Num ThreshOpt.
+(* Main theorems of C04 / C05 about ThreshOpt.v. *)
+From Coq Require Import QArith ZArith List Bool Lia Lra Psatz.
+From FL Require Import Num Tradeoff Tradeoff_proofs Hull Hull_proofs Interp Interp_proofs ThreshOpt.
+Import ListNotations.
+Open Scope Q_scope.
+
+Definition constraint_metric (m : metric) : Prop :=
+  match m with SelRate | FPR | FNR | TPR | TNR => True | _ => False end.
+
+(* ---------- expected confusion matrices ---------- *)
+Lemma exp_cm_totals f g :
+  positives (exp_cm f g) == inject_Z (count_label true g) /\
+  negatives (exp_cm f g) == inject_Z (count_label false g).
+Proof.
+  unfold positives, negatives, exp_cm. cbn [tp fp tn fn].
+  induction g as [|[s l] g [IH1 IH2]]; [split; reflexivity|].
+  rewrite !count_label_cons, !inject_Z_plus. cbn [map qsum fst snd].
+  destruct l; cbn [Bool.eqb]; change (inject_Z 1) with 1; change (inject_Z 0) with 0; split; lra.
+Qed.
+
+Lemma exp_cm_mix p0 p1 f h g : p0 + p1 == 1 ->
+  cm_eq (exp_cm (fun s => p0 * f s + p1 * h s) g) (cm_mix p0 p1 (exp_cm f g) (exp_cm h g)).
+Proof.
+  intro Hp. unfold cm_eq, cm_mix, exp_cm. cbn [tp fp tn fn].
+  induction g as [|[s l] g (I1 & I2 & I3 & I4)]; [cbn [map qsum]; repeat split; ring|].
+  cbn [map qsum fst snd]. rewrite I1, I2, I3, I4.
+  destruct l; repeat split; nra.
+Qed.
+
+Lemma both_labels_pos g : both_labels g = true ->
+  (0 < count_label true g)%Z /\ (0 < count_label false g)%Z.
+Proof. unfold both_labels. rewrite andb_true_iff, !Z.ltb_lt. tauto. Qed.
+
+Lemma inject_Z_pos z : (0 < z)%Z -> 0 < inject_Z z.
+Proof. intro H. unfold inject_Z, Qlt. cbn. lia. Qed.
+
+(* metric_linear: the metric of a p0/p1 mixture of two rules on a fixed group (both labels
+   present) is the same convex combination of the two metrics *)
+Theorem metric_linear m p0 p1 f h g : both_labels g = true -> p0 + p1 == 1 ->
+  metric_eval m (exp_cm (fun s => p0 * f s + p1 * h s) g) ==
+  p0 * metric_eval m (exp_cm f g) + p1 * metric_eval m (exp_cm h g).
+Proof.
+  intros Hb Hp. destruct (both_labels_pos g Hb) as [P N].
+  apply inject_Z_pos in P. apply inject_Z_pos in N.
+  destruct (exp_cm_totals f g) as [Pf Nf]. destruct (exp_cm_totals h g) as [Ph Nh].
+  rewrite (metric_eval_proper m _ _ (exp_cm_mix p0 p1 f h g Hp)).
+  apply metric_eval_mix; try exact Hp; try lra.
+  unfold n_, positives, negatives in *. lra.
+Qed.
+
+(* ---------- the tradeoff points of a group ---------- *)
+Lemma tradeoff_point_sound flip mx my g p : In p (tradeoff_points flip mx my g) ->
+  px p == metric_eval mx (exp_cm (op_rule (pop p)) g) /\
+  py p == metric_eval my (exp_cm (op_rule (pop p)) g).
+Proof.
+  unfold tradeoff_points. rewrite sort_xy_in. unfold tradeoff_raw. rewrite in_flat_map.
+  intros ([[t c0] c1] & Hin & Hp).
+  destruct (op_counts_sound g t c0 c1 Hin) as (Ha & Hf & _).
+  unfold points_at in Hp. destruct Hp as [<-|Hp].
+  - cbn [px py pop]. split; symmetry; apply metric_eval_proper; exact Ha.
+  - destruct flip; [|destruct Hp]. destruct Hp as [<-|[]].
+    cbn [px py pop]. split; symmetry; apply metric_eval_proper; exact Hf.
+Qed.
+
+Lemma metric_range m c : constraint_metric m ->
+  0 <= tp c -> 0 <= fp c -> 0 <= tn c -> 0 <= fn c -> 0 < positives c -> 0 < negatives c ->
+  0 <= metric_eval m c /\ metric_eval m c <= 1.
+Proof.
+  intros Hm H1 H2 H3 H4 HP HN.
+  assert (Hn : 0 < n_ c) by (unfold n_, positives, negatives in *; lra).
+  destruct m; try contradiction; unfold metric_eval; split;
+    (apply Qle_shift_div_l || apply Qle_shift_div_r); try assumption;
+    unfold predicted_positives, n_, positives, negatives in *; lra.
+Qed.
+
+Lemma exp_cm_op_nonneg o g :
+  0 <= tp (exp_cm (op_rule o) g) /\ 0 <= fp (exp_cm (op_rule o) g) /\
+  0 <= tn (exp_cm (op_rule o) g) /\ 0 <= fn (exp_cm (op_rule o) g).
+Proof.
+  destruct (exp_cm_op_rule o g) as (H1 & H2 & H3 & H4). cbn [tp fp tn fn] in *.
+  rewrite H1, H2, H3, H4.
+  repeat split; (rewrite <- (Zle_Qle 0); apply cnt_nonneg).
+Qed.
+
+Lemma tradeoff_point_range flip mx my g p : constraint_metric mx -> both_labels g = true ->
+  In p (tradeoff_points flip mx my g) -> 0 <= px p /\ px p <= 1.
+Proof.
+  intros Hm Hb Hin. destruct (tradeoff_point_sound _ _ _ _ _ Hin) as [Hx _]. rewrite Hx.
+  destruct (both_labels_pos g Hb) as [P N]. apply inject_Z_pos in P. apply inject_Z_pos in N.
+  destruct (exp_cm_totals (op_rule (pop p)) g) as [Pf Nf].
+  destruct (exp_cm_op_nonneg (pop p) g) as (A & B & C & D).
+  apply metric_range; try assumption; lra.
+Qed.
+
+Lemma walk_last : forall rows c0 c1, rows <> [] ->
+  In (TNInf, (c0 + count_label false rows)%Z, (c1 + count_label true rows)%Z) (walk rows c0 c1).
+Proof.
+  induction rows as [|[s l] rest IH]; intros c0 c1 Hn; [contradiction|].
+  cbn [walk]. rewrite !count_label_cons. destruct rest as [|[s' l'] rest'].
+  - change (count_label false []) with 0%Z. change (count_label true []) with 0%Z.
+    left. destruct l; cbn [Bool.eqb]; f_equal; [f_equal|]; lia.
+  - assert (K : In (TNInf, (c0 + ((if Bool.eqb l false then 1 else 0) + count_label false ((s', l') :: rest')))%Z,
+                    (c1 + ((if Bool.eqb l true then 1 else 0) + count_label true ((s', l') :: rest')))%Z)
+                   (walk ((s', l') :: rest') (if l then c0 else (c0 + 1)%Z) (if l then (c1 + 1)%Z else c1))).
+    { specialize (IH (if l then c0 else (c0 + 1)%Z) (if l then (c1 + 1)%Z else c1) ltac:(discriminate)).
+      assert (T : forall x y x' y' (w : list (thr * Z * Z)), x = x' -> y = y' -> In (TNInf, x, y) w -> In (TNInf, x', y') w)
+        by (intros; subst; assumption).
+      unfold row in *. set (X := count_label false ((s', l') :: rest')) in *. set (Y := count_label true ((s', l') :: rest')) in *.
+      clearbody X Y.
+      destruct l; cbn [Bool.eqb] in IH |- *; refine (T _ _ _ _ _ _ _ IH); lia. }
+    destruct (s' =? s)%Z; [exact K | right; exact K].
+Qed.
+
+Lemma thresholds_counts_ends g : both_labels g = true ->
+  In (TInf, 0%Z, 0%Z) (thresholds_counts g) /\
+  In (TNInf, count_label false g, count_label true g) (thresholds_counts g).
+Proof.
+  intro Hb. split; [left; reflexivity|]. right.
+  assert (Hn : sort_desc g <> []).
+  { intro E. destruct (both_labels_pos g Hb) as [P _].
+    rewrite count_label_cnt, <- cnt_sort, E in P. cbn in P. lia. }
+  pose proof (walk_last (sort_desc g) 0%Z 0%Z Hn) as W.
+  rewrite !count_label_cnt, !cnt_sort in W. exact W.
+Qed.
+
+Lemma tradeoff_has_01 flip mx my g : constraint_metric mx -> both_labels g = true ->
+  (exists p, In p (tradeoff_points flip mx my g) /\ px p == 0) /\
+  (exists p, In p (tradeoff_points flip mx my g) /\ px p == 1).
+Proof.
+  intros Hm Hb. destruct (thresholds_counts_ends g Hb) as [Hi Hl].
+  destruct (both_labels_pos g Hb) as [P N].
+  set (nneg := count_label false g) in *. set (npos := count_label true g) in *.
+  assert (Pq : 0 < inject_Z npos) by (apply inject_Z_pos; exact P).
+  assert (Nq : 0 < inject_Z nneg) by (apply inject_Z_pos; exact N).
+  pose (pa := mkpt (metric_eval mx (actual_cm nneg npos 0 0)) (metric_eval my (actual_cm nneg npos 0 0)) (mkop OpGt TInf)).
+  pose (pb := mkpt (metric_eval mx (actual_cm nneg npos nneg npos)) (metric_eval my (actual_cm nneg npos nneg npos)) (mkop OpGt TNInf)).
+  assert (Ia : In pa (tradeoff_points flip mx my g)).
+  { unfold tradeoff_points. rewrite sort_xy_in. unfold tradeoff_raw. rewrite in_flat_map.
+    exists (TInf, 0%Z, 0%Z). split; [exact Hi | left; reflexivity]. }
+  assert (Ib : In pb (tradeoff_points flip mx my g)).
+  { unfold tradeoff_points. rewrite sort_xy_in. unfold tradeoff_raw. rewrite in_flat_map.
+    exists (TNInf, nneg, npos). split; [exact Hl | left; reflexivity]. }
+  assert (Z0 : forall z, inject_Z (z - z) == 0) by (intro z; rewrite Z.sub_diag; reflexivity).
+  assert (Z1 : forall z, inject_Z (z - 0) == inject_Z z) by (intro z; rewrite Z.sub_0_r; reflexivity).
+  destruct mx; try contradiction.
+  - split; [exists pa | exists pb]; (split; [assumption|]); cbn [px pa pb];
+      unfold metric_eval, predicted_positives, n_, actual_cm; cbn [tp fp tn fn];
+      rewrite ?Z0, ?Z1; change (inject_Z 0) with 0; field; lra.
+  - split; [exists pa | exists pb]; (split; [assumption|]); cbn [px pa pb];
+      unfold metric_eval, negatives, actual_cm; cbn [tp fp tn fn];
+      rewrite ?Z0, ?Z1; change (inject_Z 0) with 0; field; lra.
+  - split; [exists pb | exists pa]; (split; [assumption|]); cbn [px pa pb];
+      unfold metric_eval, positives, actual_cm; cbn [tp fp tn fn];
+      rewrite ?Z0, ?Z1; change (inject_Z 0) with 0; field; lra.
+  - split; [exists pa | exists pb]; (split; [assumption|]); cbn [px pa pb];
+      unfold metric_eval, positives, actual_cm; cbn [tp fp tn fn];
+      rewrite ?Z0, ?Z1; change (inject_Z 0) with 0; field; lra.
+  - split; [exists pb | exists pa]; (split; [assumption|]); cbn [px pa pb];
+      unfold metric_eval, negatives, actual_cm; cbn [tp fp tn fn];
+      rewrite ?Z0, ?Z1; change (inject_Z 0) with 0; field; lra.
+Qed.
+
+(* hull_sublist_ends for a group: the x column of the group's hull starts at 0, ends at 1 *)
+Theorem group_hull_chain_ok flip mx my g : constraint_metric mx -> both_labels g = true ->
+  chain_ok (map px (group_hull flip mx my g)).
+Proof.
+  intros Hm Hb. unfold group_hull. destruct (tradeoff_has_01 flip mx my g Hm Hb) as [H0 H1].
+  apply hull_chain_ok; [apply sort_xy_sorted | | exact H0 | exact H1].
+  intros p Hp. apply (tradeoff_point_range flip mx my g p Hm Hb Hp).
+Qed.
+
+(* ---------- one group, one grid index ---------- *)
+Lemma group_row flip mx my N g k : constraint_metric mx -> both_labels g = true -> (k <= Pos.to_nat N)%nat ->
+  let row := nth k (group_curve flip mx my N g) dipt in
+  let r := rule_of_ipt row in
+  ix row = grid_pt N k /\ ip0 row + ip1 row == 1 /\ 0 <= ip0 row <= 1 /\
+  exp_metric mx r g == grid_pt N k /\ exp_metric my r g == iy row.
+Proof.
+  intros Hm Hb Hk. cbv zeta. unfold group_curve.
+  pose proof (group_hull_chain_ok flip mx my g Hm Hb) as Hc.
+  destruct (interpolate_row_ok (group_hull flip mx my g) N k dipt Hc Hk) as [(i & Hi & O0 & O1 & P0 & P1 & Ps & Px & Py & Pab) Hx].
+  set (row := nth k (interpolate (group_hull flip mx my g) (grid N)) dipt) in *.
+  set (h := group_hull flip mx my g) in *.
+  assert (Ia : In (nth i h dpt) (tradeoff_points flip mx my g)) by (apply hull_incl; change (hull (tradeoff_points flip mx my g)) with h; apply nth_In; lia).
+  assert (Ib : In (nth (S i) h dpt) (tradeoff_points flip mx my g)) by (apply hull_incl; change (hull (tradeoff_points flip mx my g)) with h; apply nth_In; lia).
+  destruct (tradeoff_point_sound _ _ _ _ _ Ia) as [Xa Ya].
+  destruct (tradeoff_point_sound _ _ _ _ _ Ib) as [Xb Yb].
+  split; [exact Hx|]. split; [exact Ps|]. split; [split; assumption|].
+  unfold exp_metric.
+  change (pmf (rule_of_ipt row)) with (fun s => ip0 row * op_rule (iop0 row) s + ip1 row * op_rule (iop1 row) s).
+  rewrite !(metric_linear _ _ _ _ _ g Hb Ps). rewrite O0, O1, <- Xa, <- Xb, <- Ya, <- Yb.
+  split; [rewrite Px, Hx; reflexivity | rewrite Py; reflexivity].
+Qed.
+
+(* ---------- arg-max ---------- *)
+Lemma argmax_from_bound : forall l i best bi, (bi < i)%nat -> (argmax_from l i best bi < i + length l)%nat.
+Proof.
+  induction l as [|x r IH]; intros i best bi H; cbn [argmax_from length]; [lia|].
+  destruct (Qltb best x).
+  - specialize (IH (S i) x i ltac:(lia)). lia.
+  - specialize (IH (S i) best bi ltac:(lia)). lia.
+Qed.
+
+Lemma argmax_bound l : (argmax l <= length l - 1)%nat.
+Proof.
+  destruct l as [|x r]; [cbn; lia|]. unfold argmax.
+  pose proof (argmax_from_bound r 1 x 0 ltac:(lia)). cbn [length]. lia.
+Qed.
+
+Lemma zip_add_length a b : (length (zip_add a b) <= length a)%nat.
+Proof. revert b. induction a as [|x a IH]; intros [|y b]; cbn; try lia. specialize (IH b). lia. Qed.
+
+Lemma overall_curve_length gs curves len : (length (overall_curve gs curves len) <= len)%nat.
+Proof.
+  unfold overall_curve.
+  set (F := fun (acc : list Q) (gc : group * list ipt) => zip_add acc (map (fun i => gweight gs (fst gc) * iy i) (snd gc))).
+  assert (G : forall (l : list (group * list ipt)) acc, (length acc <= len)%nat -> (length (fold_left F l acc) <= len)%nat).
+  { induction l as [|gc l IH]; intros acc Ha; [exact Ha|]. cbn [fold_left]. apply IH.
+    unfold F. pose proof (zip_add_length acc (map (fun i => gweight gs (fst gc) * iy i) (snd gc))). lia. }
+  apply G. rewrite repeat_length. lia.
+Qed.
+
+Lemma Forall2_map_r {A B} (P : A -> B -> Prop) (F : A -> B) l :
+  (forall a, In a l -> P a (F a)) -> Forall2 P l (map F l).
+Proof.
+  induction l as [|a l IH]; intro H; [constructor|]. cbn [map]. constructor.
+  - apply H. left; reflexivity.
+  - apply IH. intros b Hb. apply H. right; exact Hb.
+Qed.
+
+(* ---------- C04, simple constraints ---------- *)
+(* for every list of groups each containing both labels, every constraint metric, objective, flip
+   and grid size, the expected constrained metric of the fitted rule on the training rows of each
+   group equals the chosen grid value -- hence is the same for all groups *)
+Theorem simple_parity flip mx my N gs : constraint_metric mx ->
+  (forall g, In g gs -> both_labels g = true) ->
+  let f := fit_simple flip mx my N gs in
+  (fs_best f <= Pos.to_nat N)%nat /\
+  Forall2 (fun g r => exp_metric mx r g == grid_pt N (fs_best f)) gs (simple_rules f).
+Proof.
+  intros Hm Hb. cbv zeta.
+  assert (Hk : (fs_best (fit_simple flip mx my N gs) <= Pos.to_nat N)%nat).
+  { unfold fit_simple. cbn [fs_best].
+    pose proof (argmax_bound (overall_curve gs (map (group_curve flip mx my N) gs) (S (Pos.to_nat N)))) as A.
+    pose proof (overall_curve_length gs (map (group_curve flip mx my N) gs) (S (Pos.to_nat N))) as B. lia. }
+  split; [exact Hk|].
+  unfold simple_rules. unfold fit_simple in *. cbn [fs_sel fs_best] in *.
+  rewrite !map_map. apply Forall2_map_r. intros g Hg.
+  apply (group_row flip mx my N g _ Hm (Hb g Hg) Hk).
+Qed.
+
+(* ---------- arg-max is a maximum ---------- *)
+Lemma argmax_from_spec : forall l pre best bi, (bi < length pre)%nat -> nth bi pre 0 = best ->
+  (forall j, (j < length pre)%nat -> nth j pre 0 <= best) ->
+  forall j, (j < length (pre ++ l))%nat ->
+  nth j (pre ++ l) 0 <= nth (argmax_from l (length pre) best bi) (pre ++ l) 0.
+Proof.
+  induction l as [|x l IH]; intros pre best bi Hb Hn Hle j Hj.
+  - cbn [argmax_from]. rewrite app_nil_r in *. rewrite Hn. apply Hle. exact Hj.
+  - cbn [argmax_from].
+    assert (E : pre ++ x :: l = (pre ++ [x]) ++ l) by (rewrite <- app_assoc; reflexivity).
+    assert (L : length (pre ++ [x]) = S (length pre)) by (rewrite app_length; cbn; lia).
+    rewrite E in *. destruct (Qltb best x) eqn:C.
+    + apply Qltb_lt in C. rewrite <- L. apply IH; try assumption.
+      * rewrite L. lia.
+      * rewrite app_nth2 by lia. rewrite Nat.sub_diag. reflexivity.
+      * intros j' Hj'. rewrite L in Hj'. destruct (Nat.eq_dec j' (length pre)) as [->|Ne].
+        -- rewrite app_nth2 by lia. rewrite Nat.sub_diag. cbn. lra.
+        -- rewrite app_nth1 by lia. specialize (Hle j' ltac:(lia)). lra.
+    + apply Qltb_ge in C. rewrite <- L. apply IH; try assumption.
+      * rewrite L. lia.
+      * rewrite app_nth1 by lia. exact Hn.
+      * intros j' Hj'. rewrite L in Hj'. destruct (Nat.eq_dec j' (length pre)) as [->|Ne].
+        -- rewrite app_nth2 by lia. rewrite Nat.sub_diag. cbn. exact C.
+        -- rewrite app_nth1 by lia. apply Hle. lia.
+Qed.
+
+Lemma argmax_spec l j : (j < length l)%nat -> nth j l 0 <= nth (argmax l) l 0.
+Proof.
+  destruct l as [|x r]; [cbn; lia|]. intro Hj. unfold argmax.
+  apply (argmax_from_spec r [x] x 0%nat); cbn [length]; try lia; try reflexivity.
+  - intros j' Hj'. destruct j'; [cbn; lra | lia].
+  - exact Hj.
+Qed.
+
+(* ---------- the overall curve is the weighted sum of the group curves ---------- *)
+Lemma zip_add_len a b : length a = length b -> length (zip_add a b) = length a.
+Proof. revert b. induction a as [|x a IH]; intros [|y b] H; cbn in *; try lia. rewrite IH; lia. Qed.
+
+Lemma zip_add_nth a b k : length a = length b -> nth k (zip_add a b) 0 == nth k a 0 + nth k b 0.
+Proof.
+  revert b k. induction a as [|x a IH]; intros [|y b] k H; cbn in H; try lia.
+  - destruct k; cbn; lra.
+  - destruct k as [|k]; cbn [zip_add nth]; [reflexivity | apply IH; lia].
+Qed.
+
+Lemma nth_map_scaled (w : Q) c k : nth k (map (fun i => w * iy i) c) 0 == w * iy (nth k c dipt).
+Proof.
+  revert k. induction c as [|i c IH]; intro k.
+  - destruct k; cbn; ring.
+  - destruct k as [|k]; cbn [map nth]; [reflexivity | apply IH].
+Qed.
+
+Lemma fold_curves_nth (W : group -> Q) (l : list (group * list ipt)) acc k len :
+  length acc = len -> (forall gc, In gc l -> length (snd gc) = len) ->
+  nth k (fold_left (fun acc gc => zip_add acc (map (fun i => W (fst gc) * iy i) (snd gc))) l acc) 0
+  == nth k acc 0 + qsum (map (fun gc => W (fst gc) * iy (nth k (snd gc) dipt)) l).
+Proof.
+  revert acc. induction l as [|gc l IH]; intros acc Ha Hl; cbn [fold_left map qsum]; [ring|].
+  assert (Hg : length (snd gc) = len) by (apply Hl; left; reflexivity).
+  rewrite IH.
+  - rewrite zip_add_nth by (rewrite map_length; lia). rewrite nth_map_scaled. ring.
+  - rewrite zip_add_len by (rewrite map_length; lia). exact Ha.
+  - intros gc' H'. apply Hl. right; exact H'.
+Qed.
+
+Lemma combine_map_r {A B} (F : A -> B) l : combine l (map F l) = map (fun a => (a, F a)) l.
+Proof. induction l as [|a l IH]; [reflexivity|]. cbn. rewrite IH. reflexivity. Qed.
+
+Lemma interpolate_length h N : length (interpolate h (grid N)) = S (Pos.to_nat N).
+Proof.
+  pose proof (grid_length N) as G. unfold interpolate. destruct (grid N) as [|g0 rest]; [discriminate|].
+  cbn [length] in *. rewrite map_length. exact G.
+Qed.
+
+Lemma nth_repeat0 k n : nth k (repeat 0 n) 0 = 0.
+Proof. revert k. induction n as [|n IH]; intros [|k]; cbn; try reflexivity. apply IH. Qed.
+
+Lemma overall_nth flip mx my N gs k :
+  nth k (overall_curve gs (map (group_curve flip mx my N) gs) (S (Pos.to_nat N))) 0 ==
+  qsum (map (fun g => gweight gs g * iy (nth k (group_curve flip mx my N g) dipt)) gs).
+Proof.
+  unfold overall_curve. rewrite combine_map_r.
+  rewrite (fold_curves_nth (gweight gs) _ _ k (S (Pos.to_nat N))).
+  - rewrite nth_repeat0, map_map. cbn [fst snd]. ring.
+  - apply repeat_length.
+  - intros gc H. apply in_map_iff in H. destruct H as (g & <- & _). cbn [snd]. apply interpolate_length.
+Qed.
+
+Lemma overall_len flip mx my N gs :
+  length (overall_curve gs (map (group_curve flip mx my N) gs) (S (Pos.to_nat N))) = S (Pos.to_nat N).
+Proof.
+  unfold overall_curve. rewrite combine_map_r.
+  set (F := fun (acc : list Q) (gc : group * list ipt) => zip_add acc (map (fun i => gweight gs (fst gc) * iy i) (snd gc))).
+  assert (G : forall (l : list group) acc, length acc = S (Pos.to_nat N) ->
+    length (fold_left F (map (fun a => (a, group_curve flip mx my N a)) l) acc) = S (Pos.to_nat N)).
+  { induction l as [|g l IH]; intros acc Ha; [exact Ha|]. cbn [map fold_left]. apply IH.
+    unfold F. cbn [fst snd]. rewrite zip_add_len; [exact Ha|].
+    rewrite map_length. unfold group_curve. rewrite interpolate_length. exact Ha. }
+  apply G, repeat_length.
+Qed.
+
+Lemma gweight_nonneg gs g : 0 <= gweight gs g.
+Proof. unfold gweight, Qle. cbn. lia. Qed.
+
+(* frequency-weighted objective of a family of per-group values *)
+Definition weighted (gs : list group) (vals : list Q) : Q :=
+  qsum (map (fun gv => gweight gs (fst gv) * snd gv) (combine gs vals)).
+
+Lemma weighted_le (W : group -> Q) (l : list group) (a : list Q) (F : group -> Q) :
+  (forall g, 0 <= W g) -> Forall2 (fun g v => v <= F g) l a ->
+  qsum (map (fun gv => W (fst gv) * snd gv) (combine l a)) <= qsum (map (fun g => W g * F g) l).
+Proof.
+  intros HW H. induction H as [|g v l a Hv H IH]; cbn [combine map qsum fst snd]; [lra|].
+  specialize (HW g). assert (W g * v <= W g * F g) by nra. lra.
+Qed.
+
+Lemma weighted_eq (W : group -> Q) (l : list group) (a : list Q) (F : group -> Q) :
+  Forall2 (fun g v => v == F g) l a ->
+  qsum (map (fun gv => W (fst gv) * snd gv) (combine l a)) == qsum (map (fun g => W g * F g) l).
+Proof.
+  intros H. induction H as [|g v l a Hv H IH]; cbn [combine map qsum fst snd]; [reflexivity|].
+  rewrite IH, Hv. reflexivity.
+Qed.
+
+(* a per-group randomisation over the group's threshold rules that puts the group at constraint
+   value x; its objective value is wsum py *)
+Definition valid_mix (flip : bool) (mx my : metric) (x : Q) (g : group) (wp : list (Q * pt)) : Prop :=
+  (forall e, In e wp -> 0 <= fst e /\ In (snd e) (tradeoff_points flip mx my g)) /\
+  wtot wp == 1 /\ wsum px wp == x.
+
+Lemma interp_curve_grid h N k : (k <= Pos.to_nat N)%nat ->
+  interp_curve h (grid_pt N k) = iy (nth k (interpolate h (grid N)) dipt).
+Proof.
+  intro Hk. rewrite nth_interpolate by exact Hk. unfold interp_curve. destruct k as [|k'].
+  - reflexivity.
+  - assert (Z : Qeqb (grid_pt N (S k')) 0 = false).
+    { apply Qeqb_neq. pose proof (grid_pt_pos N (S k') ltac:(lia)). lra. }
+    rewrite Z. reflexivity.
+Qed.
+
+Lemma achieved_sum flip mx my N (W : group -> Q) l ib : constraint_metric mx ->
+  (forall g, In g l -> both_labels g = true) -> (ib <= Pos.to_nat N)%nat ->
+  qsum (map (fun g => W g * exp_metric my (rule_of_ipt (nth ib (group_curve flip mx my N g) dipt)) g) l) ==
+  qsum (map (fun g => W g * iy (nth ib (group_curve flip mx my N g) dipt)) l).
+Proof.
+  intros Hm Hb Hk. induction l as [|g l IH]; cbn [map qsum]; [reflexivity|].
+  rewrite IH by (intros g' H'; apply Hb; right; exact H').
+  destruct (group_row flip mx my N g ib Hm (Hb g ltac:(left; reflexivity)) Hk) as (_ & _ & _ & _ & E).
+  rewrite E. reflexivity.
+Qed.
+
+Lemma mix_sum_le flip mx my N (W : group -> Q) l mixes k : constraint_metric mx ->
+  (forall g, 0 <= W g) -> (forall g, In g l -> both_labels g = true) ->
+  (forall g, In g l -> is_upper_hull (group_hull flip mx my g) (tradeoff_points flip mx my g) = true) ->
+  (k <= Pos.to_nat N)%nat ->
+  Forall2 (fun g wp => valid_mix flip mx my (grid_pt N k) g wp) l mixes ->
+  qsum (map (fun gm => W (fst gm) * wsum py (snd gm)) (combine l mixes)) <=
+  qsum (map (fun g => W g * iy (nth k (group_curve flip mx my N g) dipt)) l).
+Proof.
+  intros Hm HW Hb Hu Hkk Hmix.
+  induction Hmix as [|g wp l m Hv Hmix IH]; cbn [combine map qsum fst snd]; [lra|].
+  assert (Hg : wsum py wp <= iy (nth k (group_curve flip mx my N g) dipt)).
+  { destruct Hv as (V1 & V2 & V3).
+    pose proof (group_hull_chain_ok flip mx my g Hm (Hb g ltac:(left; reflexivity))) as Hc.
+    pose proof (grid_pt_range N k Hkk) as [R0 R1].
+    pose proof (jensen_chain _ _ wp _ Hc (Hu g ltac:(left; reflexivity)) V1 V2 V3 R0 R1) as J.
+    unfold group_curve. rewrite <- interp_curve_grid by exact Hkk. exact J. }
+  specialize (IH ltac:(intros g' H'; apply Hb; right; exact H') ltac:(intros g' H'; apply Hu; right; exact H')).
+  specialize (HW g). assert (W g * wsum py wp <= W g * iy (nth k (group_curve flip mx my N g) dipt)) by nra. lra.
+Qed.
+
+Lemma combine_map_snd {A B C} (F : B -> C) (l : list A) (m : list B) :
+  combine l (map F m) = map (fun gm => (fst gm, F (snd gm))) (combine l m).
+Proof. revert m. induction l as [|a l IH]; intros [|b m]; cbn; try reflexivity. rewrite IH. reflexivity. Qed.
+
+(* ---------- C05, simple constraints (conditional on the per-group hull check) ---------- *)
+(* FULL STATEMENT = the same without the is_upper_hull premise (needs hull_is_upper_hull). *)
+Theorem simple_optimal_partial flip mx my N gs : constraint_metric mx ->
+  (forall g, In g gs -> both_labels g = true) ->
+  (forall g, In g gs -> is_upper_hull (group_hull flip mx my g) (tradeoff_points flip mx my g) = true) ->
+  let f := fit_simple flip mx my N gs in
+  let best := nth (fs_best f) (fs_overall f) 0 in
+  (* the fitted rule attains `best` on the training data ... *)
+  weighted gs (map (fun gr => exp_metric my (snd gr) (fst gr)) (combine gs (simple_rules f))) == best /\
+  (* ... and no family of per-group randomisations with a common grid value does better *)
+  forall k mixes, (k <= Pos.to_nat N)%nat ->
+    Forall2 (fun g wp => valid_mix flip mx my (grid_pt N k) g wp) gs mixes ->
+    weighted gs (map (wsum py) mixes) <= best.
+Proof.
+  intros Hm Hb Hu. cbv zeta.
+  destruct (simple_parity flip mx my N gs Hm Hb) as [Hk _]. cbv zeta in Hk.
+  unfold fit_simple in *. cbn [fs_best fs_overall fs_sel] in *.
+  set (ov := overall_curve gs (map (group_curve flip mx my N) gs) (S (Pos.to_nat N))) in *.
+  set (ib := argmax ov) in *.
+  split.
+  - unfold simple_rules, weighted. cbn [fs_sel]. rewrite !map_map, combine_map_r, map_map. cbn [fst snd].
+    rewrite combine_map_r, map_map. cbn [fst snd]. unfold ov at 1. rewrite overall_nth.
+    apply achieved_sum; assumption.
+  - intros k mixes Hkk Hmix.
+    apply Qle_trans with (nth k ov 0).
+    + unfold ov. rewrite overall_nth. unfold weighted. rewrite combine_map_snd, map_map. cbn [fst snd].
+      apply mix_sum_le; try assumption. apply gweight_nonneg.
+    + apply argmax_spec. unfold ov. rewrite overall_len. lia.
+Qed.
+
+(* ---------- equalized odds ---------- *)
+Lemma exp_cm_const c g :
+  cm_eq (exp_cm (fun _ => c) g)
+        (mkcm (c * inject_Z (count_label true g)) (c * inject_Z (count_label false g))
+              ((1 - c) * inject_Z (count_label false g)) ((1 - c) * inject_Z (count_label true g))).
+Proof.
+  unfold cm_eq, exp_cm. cbn [tp fp tn fn].
+  induction g as [|[s l] g (I1 & I2 & I3 & I4)].
+  - cbn [map qsum]. change (count_label true []) with 0%Z. change (count_label false []) with 0%Z.
+    change (inject_Z 0) with 0. repeat split; ring.
+  - cbn [map qsum fst snd]. rewrite !count_label_cons, !inject_Z_plus, I1, I2, I3, I4.
+    destruct l; cbn [Bool.eqb]; change (inject_Z 1) with 1; change (inject_Z 0) with 0; repeat split; ring.
+Qed.
+
+Lemma const_rule_rates c g : both_labels g = true ->
+  metric_eval FPR (exp_cm (fun _ => c) g) == c /\ metric_eval TPR (exp_cm (fun _ => c) g) == c.
+Proof.
+  intro Hb. destruct (both_labels_pos g Hb) as [P N]. apply inject_Z_pos in P. apply inject_Z_pos in N.
+  rewrite !(metric_eval_proper _ _ _ (exp_cm_const c g)).
+  unfold metric_eval, positives, negatives. cbn [tp fp tn fn]. split; field; lra.
+Qed.
+
+(* the corner points of the ROC plot are among the group's tradeoff points *)
+Lemma roc_corners flip g : both_labels g = true ->
+  (exists p, In p (tradeoff_points flip FPR TPR g) /\ px p == 0 /\ py p == 0) /\
+  (exists p, In p (tradeoff_points flip FPR TPR g) /\ px p == 1 /\ py p == 1).
+Proof.
+  intro Hb. destruct (thresholds_counts_ends g Hb) as [Hi Hl].
+  destruct (both_labels_pos g Hb) as [P N].
+  set (nneg := count_label false g) in *. set (npos := count_label true g) in *.
+  assert (Pq : 0 < inject_Z npos) by (apply inject_Z_pos; exact P).
+  assert (Nq : 0 < inject_Z nneg) by (apply inject_Z_pos; exact N).
+  pose (pa := mkpt (metric_eval FPR (actual_cm nneg npos 0 0)) (metric_eval TPR (actual_cm nneg npos 0 0)) (mkop OpGt TInf)).
+  pose (pb := mkpt (metric_eval FPR (actual_cm nneg npos nneg npos)) (metric_eval TPR (actual_cm nneg npos nneg npos)) (mkop OpGt TNInf)).
+  assert (Ia : In pa (tradeoff_points flip FPR TPR g)).
+  { unfold tradeoff_points. rewrite sort_xy_in. unfold tradeoff_raw. rewrite in_flat_map.
+    exists (TInf, 0%Z, 0%Z). split; [exact Hi | left; reflexivity]. }
+  assert (Ib : In pb (tradeoff_points flip FPR TPR g)).
+  { unfold tradeoff_points. rewrite sort_xy_in. unfold tradeoff_raw. rewrite in_flat_map.
+    exists (TNInf, nneg, npos). split; [exact Hl | left; reflexivity]. }
+  assert (Z0 : forall z, inject_Z (z - z) == 0) by (intro z; rewrite Z.sub_diag; reflexivity).
+  assert (Z1 : forall z, inject_Z (z - 0) == inject_Z z) by (intro z; rewrite Z.sub_0_r; reflexivity).
+  split; [exists pa | exists pb]; (split; [assumption|]); cbn [px py pa pb];
+    unfold metric_eval, positives, negatives, actual_cm; cbn [tp fp tn fn];
+    rewrite ?Z0, ?Z1; change (inject_Z 0) with 0; split; field; lra.
+Qed.
+
+(* hull_ge_diagonal (conditional on the hull check): the interpolated ROC hull is on or above the diagonal *)
+Lemma hull_ge_diagonal flip N g k : both_labels g = true ->
+  is_upper_hull (group_hull flip FPR TPR g) (tradeoff_points flip FPR TPR g) = true ->
+  (k <= Pos.to_nat N)%nat ->
+  grid_pt N k <= iy (nth k (group_curve flip FPR TPR N g) dipt).
+Proof.
+  intros Hb Hu Hk. destruct (roc_corners flip g Hb) as [(pa & Ia & Xa & Ya) (pb & Ib & Xb & Yb)].
+  pose proof (grid_pt_range N k Hk) as [R0 R1]. set (x := grid_pt N k) in *.
+  pose proof (group_hull_chain_ok flip FPR TPR g I Hb) as Hc.
+  assert (J := jensen_chain _ _ [(1 - x, pa); (x, pb)] x Hc Hu).
+  unfold group_curve. rewrite <- interp_curve_grid by exact Hk. fold x.
+  assert (Ey : wsum py [(1 - x, pa); (x, pb)] == x).
+  { unfold wsum. cbn [map qsum fst snd]. rewrite Ya, Yb. ring. }
+  rewrite <- Ey at 1. apply J; try assumption.
+  - intros e [<-|[<-|[]]]; cbn [fst snd]; split; try assumption; lra.
+  - unfold wtot. cbn [map qsum fst]. ring.
+  - unfold wsum. cbn [map qsum fst snd]. rewrite Xa, Xb. ring.
+Qed.
+
+(* np.amin over the groups *)
+Lemma zip_min_len a b : length a = length b -> length (zip_min a b) = length a.
+Proof. revert b. induction a as [|x a IH]; intros [|y b] H; cbn in *; try lia. rewrite IH; lia. Qed.
+
+Lemma zip_min_nth a b k : length a = length b -> nth k (zip_min a b) 0 = Qminq (nth k a 0) (nth k b 0).
+Proof.
+  revert b k. induction a as [|x a IH]; intros [|y b] k H; cbn in H; try lia.
+  - destruct k; reflexivity.
+  - destruct k as [|k]; cbn [zip_min nth]; [reflexivity | apply IH; lia].
+Qed.
+
+Lemma nth_map_iy c k : nth k (map iy c) 0 = iy (nth k c dipt).
+Proof. change 0 with (iy dipt). apply map_nth. Qed.
+
+Lemma fold_min_nth (l : list (list ipt)) acc k len : length acc = len -> (forall c, In c l -> length c = len) ->
+  nth k (fold_left (fun acc c' => zip_min acc (map iy c')) l acc) 0 =
+  fold_left (fun m c' => Qminq m (iy (nth k c' dipt))) l (nth k acc 0).
+Proof.
+  revert acc. induction l as [|c l IH]; intros acc Ha Hl; cbn [fold_left]; [reflexivity|].
+  assert (Hc : length c = len) by (apply Hl; left; reflexivity).
+  rewrite IH.
+  - rewrite zip_min_nth by (rewrite map_length; lia). rewrite nth_map_iy. reflexivity.
+  - rewrite zip_min_len by (rewrite map_length; lia). exact Ha.
+  - intros c' H'. apply Hl. right; exact H'.
+Qed.
+
+Lemma Qminq_le_l a b : Qminq a b <= a.
+Proof. unfold Qminq. destruct (Qleb a b) eqn:E; [lra|]. apply Qleb_gt in E. lra. Qed.
+Lemma Qminq_le_r a b : Qminq a b <= b.
+Proof. unfold Qminq. destruct (Qleb a b) eqn:E; [apply Qleb_le in E; exact E | lra]. Qed.
+Lemma Qminq_glb lb a b : lb <= a -> lb <= b -> lb <= Qminq a b.
+Proof. unfold Qminq. destruct (Qleb a b); auto. Qed.
+
+Lemma fold_minq_le (F : list ipt -> Q) l m :
+  fold_left (fun m c' => Qminq m (F c')) l m <= m /\
+  (forall c, In c l -> fold_left (fun m c' => Qminq m (F c')) l m <= F c).
+Proof.
+  revert m. induction l as [|c l IH]; intro m; cbn [fold_left]; [split; [lra | intros c []]|].
+  destruct (IH (Qminq m (F c))) as [A B]. split.
+  - pose proof (Qminq_le_l m (F c)). lra.
+  - intros c' [<-|H']; [pose proof (Qminq_le_r m (F c)); lra | apply B; exact H'].
+Qed.
+
+Lemma fold_minq_glb (F : list ipt -> Q) l m lb : lb <= m -> (forall c, In c l -> lb <= F c) ->
+  lb <= fold_left (fun m c' => Qminq m (F c')) l m.
+Proof.
+  revert m. induction l as [|c l IH]; intros m Hm H; cbn [fold_left]; [exact Hm|].
+  apply IH; [apply Qminq_glb; [exact Hm | apply H; left; reflexivity] | intros c' H'; apply H; right; exact H'].
+Qed.
+
+Lemma y_min_nth curves k len : (forall c, In c curves -> length c = len) ->
+  (forall c, In c curves -> nth k (y_min_curve curves) 0 <= iy (nth k c dipt)) /\
+  (forall lb, curves <> [] -> (forall c, In c curves -> lb <= iy (nth k c dipt)) -> lb <= nth k (y_min_curve curves) 0).
+Proof.
+  intro Hl. destruct curves as [|c0 rest]; [split; [intros c [] | intros lb H; contradiction]|].
+  unfold y_min_curve.
+  rewrite (fold_min_nth rest (map iy c0) k len);
+    [| rewrite map_length; apply Hl; left; reflexivity | intros c H; apply Hl; right; exact H].
+  rewrite nth_map_iy.
+  destruct (fold_minq_le (fun c => iy (nth k c dipt)) rest (iy (nth k c0 dipt))) as [A B].
+  split.
+  - intros c [<-|H]; [exact A | apply B; exact H].
+  - intros lb _ H. apply fold_minq_glb; [apply H; left; reflexivity | intros c Hc; apply H; right; exact Hc].
+Qed.
+
+Definition eo_curves flip N gs := map (group_curve flip FPR TPR N) gs.
+
+Lemma fit_eo_best_le flip obj N gs : (fe_best (fit_eo flip obj N gs) <= Pos.to_nat N)%nat.
+Proof.
+  unfold fit_eo. cbn [fe_best].
+  match goal with |- (argmax ?l <= _)%nat => pose proof (argmax_bound l) as A; assert (B : (length l <= S (Pos.to_nat N))%nat) end.
+  { rewrite map_length, combine_length, grid_length. lia. }
+  lia.
+Qed.
+
+(* C04, equalized odds, FPR half (unconditional) and TPR half *)
+Theorem eo_parity_fpr flip obj N gs : (forall g, In g gs -> both_labels g = true) ->
+  let f := fit_eo flip obj N gs in
+  fe_xbest f = grid_pt N (fe_best f) /\
+  Forall2 (fun g r => exp_metric FPR r g == fe_xbest f) gs (fe_rules f).
+Proof.
+  intros Hb. cbv zeta. pose proof (fit_eo_best_le flip obj N gs) as Hk.
+  unfold fit_eo in *. cbn [fe_best fe_xbest fe_rules] in *.
+  match type of Hk with (?e <= _)%nat => set (ib := e) in * end.
+  split; [apply nth_grid; exact Hk|].
+  rewrite !map_map. apply Forall2_map_r. intros g Hg.
+  destruct (group_row flip FPR TPR N g ib I (Hb g Hg) Hk) as (Hx & Ps & _ & EX & EY).
+  set (row := nth ib (group_curve flip FPR TPR N g) dipt) in *.
+  set (xb := nth ib (grid N) 0). set (pig := p_ignore_of row _).
+  unfold exp_metric.
+  change (pmf _) with (fun s => pig * (fun _ : Z => xb) s + (1 - pig) * pmf (rule_of_ipt row) s).
+  rewrite (metric_linear FPR pig (1 - pig) _ _ g (Hb g Hg)) by ring.
+  destruct (const_rule_rates xb g (Hb g Hg)) as [C1 _]. rewrite C1.
+  unfold exp_metric in EX. rewrite EX. unfold xb. rewrite (nth_grid N ib Hk). ring.
+Qed.
+
+(* FULL STATEMENT = the same without the is_upper_hull premise (needs hull_is_upper_hull; the premise is
+   only used when a group's interpolated point lies exactly on the diagonal, where p_ignore = 0) *)
+Theorem eo_parity_tpr_partial flip obj N gs : (forall g, In g gs -> both_labels g = true) ->
+  (forall g, In g gs -> is_upper_hull (group_hull flip FPR TPR g) (tradeoff_points flip FPR TPR g) = true) ->
+  let f := fit_eo flip obj N gs in
+  Forall2 (fun g r => exp_metric TPR r g == fe_ybest f) gs (fe_rules f).
+Proof.
+  intros Hb Hu. cbv zeta. pose proof (fit_eo_best_le flip obj N gs) as Hk.
+  unfold fit_eo in *. cbn [fe_best fe_ybest fe_rules] in *.
+  match type of Hk with (?e <= _)%nat => set (ib := e) in * end.
+  rewrite !map_map. apply Forall2_map_r. intros g Hg.
+  destruct (group_row flip FPR TPR N g ib I (Hb g Hg) Hk) as (Hx & Ps & _ & EX & EY).
+  set (row := nth ib (group_curve flip FPR TPR N g) dipt) in *.
+  set (xb := nth ib (grid N) 0).
+  set (yb := nth ib (y_min_curve (map (group_curve flip FPR TPR N) gs)) 0).
+  assert (Exb : xb = grid_pt N ib) by (apply nth_grid; exact Hk).
+  destruct (y_min_nth (map (group_curve flip FPR TPR N) gs) ib (S (Pos.to_nat N))) as [Ymin Yglb].
+  { intros c Hc. apply in_map_iff in Hc. destruct Hc as (g' & <- & _). apply interpolate_length. }
+  assert (Y1 : yb <= iy row) by (apply Ymin; apply in_map; exact Hg).
+  unfold exp_metric.
+  change (pmf _) with (fun s => p_ignore_of row yb * (fun _ : Z => xb) s + (1 - p_ignore_of row yb) * pmf (rule_of_ipt row) s).
+  rewrite (metric_linear TPR _ (1 - p_ignore_of row yb) _ _ g (Hb g Hg)) by ring.
+  destruct (const_rule_rates xb g (Hb g Hg)) as [_ C2]. rewrite C2.
+  unfold exp_metric in EY. rewrite EY.
+  unfold p_ignore_of. rewrite Hx, <- Exb. destruct (Qeqb (iy row) xb) eqn:E.
+  - apply Qeqb_eq in E.
+    assert (Y2 : xb <= yb).
+    { apply Yglb; [destruct gs; [destruct Hg | discriminate]|].
+      intros c Hc. apply in_map_iff in Hc. destruct Hc as (g' & <- & Hg').
+      rewrite Exb. apply hull_ge_diagonal; [apply Hb | apply Hu | exact Hk]; exact Hg'. }
+    lra.
+  - apply Qeqb_neq in E. field. intro C. apply E. lra.
+Qed.
+
+(* ---------- C05, equalized odds (conditional on the per-group hull check) ---------- *)
+Lemma count_label_concat_ge b g gs : In g gs -> (count_label b g <= count_label b (concat gs))%Z.
+Proof.
+  induction gs as [|h t IH]; [intros []|]; intros [<-|H]; cbn [concat]; rewrite !count_label_cnt, cnt_app.
+  - pose proof (cnt_nonneg (fun r => Bool.eqb (snd r) b) (concat t)). lia.
+  - specialize (IH H). rewrite !count_label_cnt in IH. pose proof (cnt_nonneg (fun r => Bool.eqb (snd r) b) h). lia.
+Qed.
+
+Lemma length_count l : Z.of_nat (length l) = (count_label true l + count_label false l)%Z.
+Proof.
+  induction l as [|[s b] l IH]; [reflexivity|]. rewrite !count_label_cons. cbn [length].
+  destruct b; cbn [Bool.eqb]; lia.
+Qed.
+
+Lemma eo_objective_monotone obj npos nneg x y y' : obj = Acc \/ obj = BalAcc ->
+  (0 < npos)%Z -> (0 < nneg)%Z -> y <= y' ->
+  metric_eval obj (eo_counts npos nneg x y) <= metric_eval obj (eo_counts npos nneg x y').
+Proof.
+  intros Ho P N Hy. apply inject_Z_pos in P. apply inject_Z_pos in N.
+  destruct Ho as [-> | ->]; unfold metric_eval, eo_counts, n_, positives, negatives; cbn [tp fp tn fn];
+    set (p := inject_Z npos) in *; set (n := inject_Z nneg) in *.
+  - assert (E : forall z, p * z + n * (1 - x) + n * x + p * (1 - z) == p + n) by (intro; ring).
+    rewrite !E. apply Qmult_le_compat_r; [nra | apply Qlt_le_weak, Qinv_lt_0_compat; lra].
+  - assert (E1 : forall z, p * z + p * (1 - z) == p) by (intro; ring).
+    assert (E2 : n * (1 - x) + n * x == n) by ring.
+    rewrite !E1, !E2.
+    assert (A : (1 # 2) * (p * y) / p <= (1 # 2) * (p * y') / p).
+    { apply Qmult_le_compat_r; [nra | apply Qlt_le_weak, Qinv_lt_0_compat; lra]. }
+    lra.
+Qed.
+
+(* any rule that gives every group the same (FPR, TPR) = (grid value, y) by randomising over the group's
+   threshold rules has y <= y_min(x), hence an objective not above the arg-max the fit selects.
+   FULL STATEMENT = without the is_upper_hull premise, plus: the value metric_eval obj (eo_counts ... x_best
+   y_best) is the overall objective of the fitted rule on the training rows (follows from eo_parity_* by
+   summing the per-group confusion matrices; not mechanised). *)
+Theorem eo_optimal_partial flip obj N gs : obj = Acc \/ obj = BalAcc -> gs <> [] ->
+  (forall g, In g gs -> both_labels g = true) ->
+  (forall g, In g gs -> is_upper_hull (group_hull flip FPR TPR g) (tradeoff_points flip FPR TPR g) = true) ->
+  let f := fit_eo flip obj N gs in
+  let npos := count_label true (concat gs) in
+  let nneg := (Z.of_nat (length (concat gs)) - npos)%Z in
+  nth (fe_best f) (fe_obj f) 0 = metric_eval obj (eo_counts npos nneg (fe_xbest f) (fe_ybest f)) /\
+  forall k y mixes, (k <= Pos.to_nat N)%nat ->
+    Forall2 (fun g wp => valid_mix flip FPR TPR (grid_pt N k) g wp /\ wsum py wp == y) gs mixes ->
+    metric_eval obj (eo_counts npos nneg (grid_pt N k) y) <= nth (fe_best f) (fe_obj f) 0.
+Proof.
+  intros Ho Hne Hb Hu. cbv zeta. pose proof (fit_eo_best_le flip obj N gs) as Hk.
+  unfold fit_eo in *. cbn [fe_best fe_obj fe_xbest fe_ybest] in *.
+  set (npos := count_label true (concat gs)) in *.
+  set (nneg := (Z.of_nat (length (concat gs)) - npos)%Z) in *.
+  set (ymin := y_min_curve (map (group_curve flip FPR TPR N) gs)) in *.
+  set (F := fun xy : Q * Q => metric_eval obj (eo_counts npos nneg (fst xy) (snd xy))) in *.
+  set (objs := map F (combine (grid N) ymin)) in *.
+  set (ib := argmax objs) in *.
+  assert (Hcl : forall c, In c (map (group_curve flip FPR TPR N) gs) -> length c = S (Pos.to_nat N)).
+  { intros c Hc. apply in_map_iff in Hc. destruct Hc as (g' & <- & _). apply interpolate_length. }
+  assert (Hyl : length ymin = S (Pos.to_nat N)).
+  { unfold ymin, y_min_curve. destruct gs as [|g0 rest]; [contradiction|]. cbn [map].
+    assert (G : forall (l : list (list ipt)) acc, length acc = S (Pos.to_nat N) ->
+              (forall c, In c l -> length c = S (Pos.to_nat N)) ->
+              length (fold_left (fun acc c' => zip_min acc (map iy c')) l acc) = S (Pos.to_nat N)).
+    { induction l as [|c l IH]; intros acc Ha Hl; [exact Ha|]. cbn [fold_left]. apply IH.
+      - rewrite zip_min_len; [exact Ha | rewrite map_length, (Hl c ltac:(left; reflexivity)); exact Ha].
+      - intros c' H'. apply Hl. right; exact H'. }
+    apply G.
+    - rewrite map_length. apply Hcl. left; reflexivity.
+    - intros c Hc. apply Hcl. right. exact Hc. }
+  assert (Hol : length objs = S (Pos.to_nat N)).
+  { unfold objs. rewrite map_length, combine_length, grid_length, Hyl. lia. }
+  assert (Hnth : forall k, (k <= Pos.to_nat N)%nat -> nth k objs 0 = F (grid_pt N k, nth k ymin 0)).
+  { intros k Hkk. unfold objs. rewrite (nth_indep _ 0 (F (0, 0))) by (fold objs; rewrite Hol; lia).
+    rewrite map_nth, combine_nth by (rewrite grid_length, Hyl; reflexivity).
+    rewrite (nth_grid N k Hkk). reflexivity. }
+  split.
+  - rewrite (Hnth ib Hk). unfold F. cbn [fst snd]. rewrite (nth_grid N ib Hk). reflexivity.
+  - intros k y mixes Hkk Hmix.
+    apply Qle_trans with (nth k objs 0); [|apply argmax_spec; rewrite Hol; lia].
+    rewrite (Hnth k Hkk). unfold F. cbn [fst snd].
+    assert (P : (0 < npos)%Z /\ (0 < nneg)%Z).
+    { destruct gs as [|g0 rest]; [contradiction|].
+      destruct (both_labels_pos g0 (Hb g0 ltac:(left; reflexivity))) as [P0 N0].
+      pose proof (count_label_concat_ge true g0 (g0 :: rest) ltac:(left; reflexivity)).
+      pose proof (count_label_concat_ge false g0 (g0 :: rest) ltac:(left; reflexivity)).
+      unfold nneg, npos. rewrite length_count. lia. }
+    apply eo_objective_monotone; [exact Ho | apply P | apply P |].
+    destruct (y_min_nth (map (group_curve flip FPR TPR N) gs) k (S (Pos.to_nat N)) Hcl) as [_ Yglb].
+    apply Yglb; [destruct gs; [contradiction | discriminate]|].
+    intros c Hc. apply in_map_iff in Hc. destruct Hc as (g & <- & Hg).
+    clear -Hmix Hg Hb Hu Hkk.
+    induction Hmix as [|g' wp l m [Hv Hy] Hmix IH]; [destruct Hg|].
+    destruct Hg as [<-|Hg].
+    + destruct Hv as (V1 & V2 & V3).
+      pose proof (group_hull_chain_ok flip FPR TPR g' I (Hb g' ltac:(left; reflexivity))) as Hc.
+      pose proof (grid_pt_range N k Hkk) as [R0 R1].
+      pose proof (jensen_chain _ _ wp _ Hc (Hu g' ltac:(left; reflexivity)) V1 V2 V3 R0 R1) as J.
+      unfold group_curve. rewrite <- interp_curve_grid by exact Hkk. rewrite <- Hy. exact J.
+    + apply IH; [intros g'' H''; apply Hb; right; exact H'' | intros g'' H''; apply Hu; right; exact H'' | exact Hg].
+Qed.
+
+(* ---------- equalized odds: the arg-max value IS the overall objective of the fitted rule ---------- *)
+Definition cm_add (a b : cm) : cm := mkcm (tp a + tp b) (fp a + fp b) (tn a + tn b) (fn a + fn b).
+Definition cm_zero : cm := mkcm 0 0 0 0.
+(* expected confusion matrix of the whole training set under per-group rules *)
+Definition total_cm (grs : list (group * rule)) : cm :=
+  fold_right (fun gr acc => cm_add (exp_cm (pmf (snd gr)) (fst gr)) acc) cm_zero grs.
+
+Lemma rates_to_counts c x y P Nn : 0 < P -> 0 < Nn -> positives c == P -> negatives c == Nn ->
+  metric_eval FPR c == x -> metric_eval TPR c == y ->
+  cm_eq c (mkcm (P * y) (Nn * x) (Nn * (1 - x)) (P * (1 - y))).
+Proof.
+  intros HP HN EP EN Ex Ey. unfold metric_eval in Ex, Ey. rewrite EN in Ex. rewrite EP in Ey.
+  assert (Efp : fp c == Nn * x) by (rewrite <- Ex; field; lra).
+  assert (Etp : tp c == P * y) by (rewrite <- Ey; field; lra).
+  unfold positives, negatives in EP, EN. unfold cm_eq. cbn [tp fp tn fn].
+  repeat split; lra.
+Qed.
+
+Lemma Forall2_and {A B} (P Q : A -> B -> Prop) l m : Forall2 P l m -> Forall2 Q l m -> Forall2 (fun a b => P a b /\ Q a b) l m.
+Proof.
+  intro H. induction H as [|a b l m Hp H IH]; intro Hq; [constructor|].
+  inversion Hq; subst. constructor; [split; assumption | apply IH; assumption].
+Qed.
+
+Lemma total_cm_eo x y gs rules : (forall g, In g gs -> both_labels g = true) ->
+  Forall2 (fun g r => exp_metric FPR r g == x /\ exp_metric TPR r g == y) gs rules ->
+  cm_eq (total_cm (combine gs rules))
+        (eo_counts (count_label true (concat gs)) (count_label false (concat gs)) x y).
+Proof.
+  intros Hb H. induction H as [|g r gs rules [Hx Hy] H IH].
+  - cbn. unfold cm_eq, eo_counts. cbn [tp fp tn fn]. change (inject_Z 0) with 0. repeat split; ring.
+  - cbn [combine total_cm fold_right fst snd concat].
+    specialize (IH ltac:(intros g' H'; apply Hb; right; exact H')).
+    destruct (both_labels_pos g (Hb g ltac:(left; reflexivity))) as [P N].
+    apply inject_Z_pos in P. apply inject_Z_pos in N.
+    destruct (exp_cm_totals (pmf r) g) as [EP EN].
+    pose proof (rates_to_counts _ x y _ _ P N EP EN Hx Hy) as (C1 & C2 & C3 & C4).
+    destruct IH as (I1 & I2 & I3 & I4).
+    fold (total_cm (combine gs rules)).
+    unfold cm_eq, cm_add, eo_counts in *. cbn [tp fp tn fn] in *.
+    rewrite C1, C2, C3, C4, I1, I2, I3, I4.
+    rewrite !count_label_cnt, !cnt_app, !inject_Z_plus. repeat split; ring.
+Qed.
+
+(* FULL STATEMENT = without the is_upper_hull premise (inherited from eo_parity_tpr_partial). *)
+Theorem eo_objective_achieved_partial flip obj N gs :
+  (forall g, In g gs -> both_labels g = true) ->
+  (forall g, In g gs -> is_upper_hull (group_hull flip FPR TPR g) (tradeoff_points flip FPR TPR g) = true) ->
+  let f := fit_eo flip obj N gs in
+  metric_eval obj (total_cm (combine gs (fe_rules f))) ==
+  metric_eval obj (eo_counts (count_label true (concat gs))
+                             (Z.of_nat (length (concat gs)) - count_label true (concat gs)) (fe_xbest f) (fe_ybest f)).
+Proof.
+  intros Hb Hu. cbv zeta.
+  destruct (eo_parity_fpr flip obj N gs Hb) as [_ Hf]. pose proof (eo_parity_tpr_partial flip obj N gs Hb Hu) as Ht.
+  cbv zeta in Hf, Ht. pose proof (Forall2_and _ _ _ _ Hf Ht) as H.
+  apply metric_eval_proper.
+  replace (Z.of_nat (length (concat gs)) - count_label true (concat gs))%Z with (count_label false (concat gs))
+    by (rewrite length_count; lia).
+  apply total_cm_eo; assumption.
+Qed.
+
+(* ====================================================================================== *)
+(* With hull_is_upper_hull the conditional theorems become unconditional.                  *)
+(* ====================================================================================== *)
+Lemma group_hull_upper flip mx my g :
+  is_upper_hull (group_hull flip mx my g) (tradeoff_points flip mx my g) = true.
+Proof. unfold group_hull, tradeoff_points. apply hull_is_upper_hull, sort_xy_sorted. Qed.
+
+Theorem eo_parity_tpr flip obj N gs : (forall g, In g gs -> both_labels g = true) ->
+  let f := fit_eo flip obj N gs in
+  Forall2 (fun g r => exp_metric TPR r g == fe_ybest f) gs (fe_rules f).
+Proof. intro Hb. apply eo_parity_tpr_partial; [exact Hb | intros; apply group_hull_upper]. Qed.
+
+Theorem simple_optimal flip mx my N gs : constraint_metric mx ->
+  (forall g, In g gs -> both_labels g = true) ->
+  let f := fit_simple flip mx my N gs in
+  let best := nth (fs_best f) (fs_overall f) 0 in
+  weighted gs (map (fun gr => exp_metric my (snd gr) (fst gr)) (combine gs (simple_rules f))) == best /\
+  forall k mixes, (k <= Pos.to_nat N)%nat ->
+    Forall2 (fun g wp => valid_mix flip mx my (grid_pt N k) g wp) gs mixes ->
+    weighted gs (map (wsum py) mixes) <= best.
+Proof. intros Hm Hb. apply simple_optimal_partial; [exact Hm | exact Hb | intros; apply group_hull_upper]. Qed.
+
+Theorem eo_optimal flip obj N gs : obj = Acc \/ obj = BalAcc -> gs <> [] ->
+  (forall g, In g gs -> both_labels g = true) ->
+  let f := fit_eo flip obj N gs in
+  let npos := count_label true (concat gs) in
+  let nneg := (Z.of_nat (length (concat gs)) - npos)%Z in
+  nth (fe_best f) (fe_obj f) 0 = metric_eval obj (eo_counts npos nneg (fe_xbest f) (fe_ybest f)) /\
+  forall k y mixes, (k <= Pos.to_nat N)%nat ->
+    Forall2 (fun g wp => valid_mix flip FPR TPR (grid_pt N k) g wp /\ wsum py wp == y) gs mixes ->
+    metric_eval obj (eo_counts npos nneg (grid_pt N k) y) <= nth (fe_best f) (fe_obj f) 0.
+Proof. intros Ho Hn Hb. apply eo_optimal_partial; [exact Ho | exact Hn | exact Hb | intros; apply group_hull_upper]. Qed.
+
+Theorem eo_objective_achieved flip obj N gs : (forall g, In g gs -> both_labels g = true) ->
+  let f := fit_eo flip obj N gs in
+  metric_eval obj (total_cm (combine gs (fe_rules f))) ==
+  metric_eval obj (eo_counts (count_label true (concat gs))
+                             (Z.of_nat (length (concat gs)) - count_label true (concat gs)) (fe_xbest f) (fe_ybest f)).
+Proof. intro Hb. apply eo_objective_achieved_partial; [exact Hb | intros; apply group_hull_upper]. Qed.
